@@ -117,46 +117,6 @@ fn c01_date_epoch_day_roundtrip() {
     assert!(a.until_days_ranged(b).get() as i64 == e_of(y2, m2, d2) - e_of(y, m, d));
 }
 
-//@harness c01_date_nth_weekday
-//@target civil::Date::nth_weekday (src/civil/date.rs)
-//@prop C01 C05
-//@tier quick
-//@doc for every date, weekday and i32 nth: Ok(r) => r has that weekday and is the |nth|-th such day strictly after (nth>0) / before (nth<0) the date; Err iff nth==0 or that day is outside -9999-01-01..=9999-12-31
-#[kani::proof]
-#[kani::stub(IDate::to_epoch_day, memo_to_epoch_day)]
-#[kani::stub(IEpochDay::to_date, memo_to_date)]
-#[kani::unwind(6)]
-fn c01_date_nth_weekday() {
-    let dt = any_date();
-    let (y, m, d) = ymd(dt);
-    let w = any_weekday();
-    let nth: i32 = kani::any();
-    // known finding F14 (see known_findings.json): |nth| == 1043498 is refused by a parameter range
-    // check although the requested day can still exist; carved out here, demonstrated by c01_f14_demo.
-    kani::assume(nth != 1043498 && nth != -1043498);
-    let e0 = e_of(y, m, d);
-    let r = dt.nth_weekday(nth, w);
-    // the target day number, from the statement: first day after e0 with weekday w is e0 + 1 + ((w - wd(e0+1)) mod 7)
-    let n = nth as i64;
-    let target = if n > 0 {
-        e0 + 1 + (wnum(w) - wd(e0 + 1)).rem_euclid(7) + 7 * (n - 1)
-    } else {
-        e0 - 1 - (wd(e0 - 1) - wnum(w)).rem_euclid(7) + 7 * (n + 1)
-    };
-    let in_range = E_MIN as i64 <= target && target <= E_MAX as i64;
-    match r {
-        Ok(rd_) => {
-            let (ry, rm, rdd) = ymd(rd_);
-            assert!(n != 0 && in_range);
-            assert!(e_of(ry, rm, rdd) == target);
-            assert!(wd(target) == wnum(w));
-        }
-        Err(_) => {
-            assert!(n == 0 || !in_range);
-        }
-    }
-}
-
 //@harness c01_date_nth_weekday_of_month
 //@target civil::Date::nth_weekday_of_month (src/civil/date.rs)
 //@prop C01 C05
